@@ -44,8 +44,20 @@ func pipeSeq(r *vx.Run, pair string, depth int) *vx.Seq[*pipeSys] {
 		forged := types.Clone(s.T).(*types.Transaction)
 		spoil(forged)
 		other := filler(6, 701, false)
+		if strings.HasPrefix(pair, "S1+S2") {
+			// the sender of S1 and S2 already holds one transaction less than the per-sender limit
+			for i := 0; i < perSender-1; i++ {
+				if err := s.n.mem.PushTx(filler(7, 300+int64(i), false)); err != nil {
+					panic(fmt.Sprintf("pre-state push failed: %v", err))
+				}
+			}
+		}
 		mk := func(name string) *pipeSub {
 			switch name {
+			case "S1":
+				return &pipeSub{name: "S1", tx: filler(7, 711, false)}
+			case "S2@sender-one-below-limit":
+				return &pipeSub{name: "S2", tx: filler(7, 712, false)}
 			case "T":
 				return &pipeSub{name: "T", tx: s.T}
 			case "forged-copy-of-T":
@@ -100,14 +112,33 @@ func pipeSeq(r *vx.Run, pair string, depth int) *vx.Seq[*pipeSys] {
 	}
 	q.Check = func(s *pipeSys) string {
 		seen := map[string]bool{}
+		perFrom := map[string]int{}
 		for _, tx := range mempool.V22Contents(s.n.mem) {
 			h := string(tx.Hash())
+			perFrom[tx.From()]++
+			if perFrom[tx.From()] > perSender {
+				return fmt.Sprintf("pipeline:sender-above-limit| the pool holds %d transactions of one sender (limit %d) after %v", perFrom[tx.From()], perSender, s.hist)
+			}
 			if seen[h] {
 				return fmt.Sprintf("pipeline:duplicate-in-pool| the pool holds one transaction twice after %v", s.hist)
 			}
 			seen[h] = true
 			if !tx.CheckSign(hdrHeight + 2) {
 				return fmt.Sprintf("pipeline:unverifiable-transaction-in-pool| the pool holds a transaction whose signature does not verify after %v", s.hist)
+			}
+		}
+		for _, sb := range s.subs {
+			if sb.stage == 3 && !sb.ok && !sb.forged && seen[string(sb.tx.Hash())] {
+				// (a forged copy shares its hash with the genuine transaction, which may rightly be in the pool)
+				dup := false
+				for _, o := range s.subs {
+					if o != sb && o.stage == 3 && o.ok && string(o.tx.Hash()) == string(sb.tx.Hash()) {
+						dup = true // the same transaction submitted twice: the refused copy is the duplicate
+					}
+				}
+				if !dup {
+					return fmt.Sprintf("pipeline:refused-submission-in-pool| submission %s was refused (%v) but the transaction is in the pool after %v", sb.name, sb.msg.Err(), s.hist)
+				}
 			}
 		}
 		return ""
@@ -138,7 +169,7 @@ func pipeSeq(r *vx.Run, pair string, depth int) *vx.Seq[*pipeSys] {
 }
 
 func pipelinePart(r *vx.Run) {
-	for _, pair := range []string{"T+forged-copy-of-T", "forged-copy-of-T+T", "forged-copy-of-T+U", "T+T"} {
+	for _, pair := range []string{"T+forged-copy-of-T", "forged-copy-of-T+T", "forged-copy-of-T+U", "T+T", "S1+S2@sender-one-below-limit"} {
 		pipeSeq(r, pair, r.Pick(7, 8)).Explore()
 	}
 }
